@@ -269,7 +269,7 @@ def render_attr_case(c, k, canonical=False):
         if c["t"] == "attr":
             named = sorted(named, key=lambda x: ["callback", "priority", "allow_greedy", "ignore"].index(x))
         else:
-            named = sorted(named, key=lambda x: ["extras", "error", "subA", "subB", "utf8", "skip"].index(x))
+            named = sorted(named, key=lambda x: ["extras", "error", "subA", "subB", "utf8", "lifetime", "type", "skip"].index(x))
     if c["t"] == "attr":
         pat = {"token": "fn", "regex": "[a-z]+x", "skip": "[a-z]+x"}[c["kind"]]
         a = {"kind": c["kind"], "pat": {"s": pat}, "order": named}
@@ -287,10 +287,14 @@ def render_attr_case(c, k, canonical=False):
             d = corpus.mk("attr%d" % k, [a, corpus.tok("q")])
         return d
     text = {"skip": 'skip("[ ]+", priority = 3)', "extras": "extras = u32", "error": "error = MyErr", "subA": 'subpattern a = "[0-9]"',
-            "subB": 'subpattern b = "(?&a)+x"', "utf8": "utf8 = true"}
+            "subB": 'subpattern b = "(?&a)+x"', "utf8": "utf8 = true", "lifetime": "lifetime = 'a", "type": "type T = &'a str"}
     lead = "(?&b)y" if "subB" in named else "(?&a)+" if "subA" in named else "[a-z]+"
     d = corpus.mk("items%d" % k, [corpus.rx(lead), corpus.tok("qq")])
     d["logos"] = [", ".join(text[x] for x in named)]
+    if "type" in named or "lifetime" in named:
+        # generic enum: the source lifetime and the concrete type of T come from the items
+        d["enum_generics"] = "<'a, T>" if "type" in named else "<'a>"
+        d["vars"][0]["field"] = "T" if "type" in named else "&'a str"
     return d
 
 
@@ -326,7 +330,8 @@ def attr_run(tier, seed):
         if not m2["accepted"]:
             findings.append({"key": "attr:canonical-rejected:" + key, "what": "canonical order rejected: %s" % m2["errors"][:1], "source": m2["src"]})
             continue
-        same = (m1["captured_leaves"] == m2["captured_leaves"] and t1["g"] == t2["g"] and t1["prio"] == t2["prio"])
+        same = (m1["captured_leaves"] == m2["captured_leaves"] and t1["g"] == t2["g"] and t1["prio"] == t2["prio"]
+                and m1["out_hash_norm"] == m2["out_hash_norm"])
         if not same:
             findings.append({"key": "attr:differs:" + key, "what": "order %s yields a different lexer than the canonical order" % list(c["named"]),
                              "source": m1["src"], "canonical_source": m2["src"], "leaves": m1["captured_leaves"], "canonical_leaves": m2["captured_leaves"]})
